@@ -12,6 +12,7 @@ import Scalibr.Base.Wire
 import Scalibr.Base.Sort
 import Scalibr.Spec.Index
 import Scalibr.Spec.ProtoPkg
+import Scalibr.Proofs.ProtoResult
 import Scalibr.Gen.Purl
 open Scalibr Scalibr.Wire Scalibr.Index
 
@@ -127,6 +128,164 @@ def handleProto (t : List String) : String :=
     | _, _, _, _, _, _, _, _, _, _ => "bad-op"
   | _ => "bad-op"
 
+
+/-! ### `result` cases: the non-package part of the result proto (grammar: harness/cmd/c14gen/result.go) -/
+section Result
+open Scalibr.ProtoResult
+
+abbrev RFinding := Finding String (String × String)
+
+def hexList? (sep : String) (s : String) : Option (List String) := if s = "_" then some [] else (s.splitOn sep).mapM unhex?
+def hexListStr (sep : String) (xs : List String) : String := if xs.isEmpty then "_" else sep.intercalate (xs.map hexE)
+
+def cvssOf? (s : String) : Option (Option (CVSS String)) :=
+  if s = "n" then some none else
+  match s.splitOn "/" with
+  | [b, t, e] => some (some ⟨b, t, e⟩)
+  | _ => none
+def cvssStr : Option (CVSS String) → String
+  | none => "n"
+  | some c => s!"{c.base}/{c.temporal}/{c.environmental}"
+
+def sevOf? (s : String) : Option (Option (Severity String)) :=
+  if s = "n" then some none else
+  match s.splitOn "+" with
+  | [e, v2, v3] => match e.toInt?, cvssOf? v2, cvssOf? v3 with
+    | some e, some v2, some v3 => some (some ⟨e, v2, v3⟩)
+    | _, _, _ => none
+  | _ => none
+def sevStr : Option (Severity String) → String
+  | none => "n"
+  | some v => s!"{v.sev}+{cvssStr v.v2}+{cvssStr v.v3}"
+
+def pairOf? (s : String) : Option (Option (String × String)) :=
+  if s = "n" then some none else
+  match s.splitOn "+" with
+  | [a, b] => match unhex? a, unhex? b with
+    | some a, some b => some (some (a, b))
+    | _, _ => none
+  | _ => none
+def pairStr : Option (String × String) → String
+  | none => "n"
+  | some (a, b) => hexE a ++ "+" ++ hexE b
+
+def advOf? (s : String) : Option (Option (Advisory String)) :=
+  if s = "n" then some none else
+  match s.splitOn "~" with
+  | [id, ty, t, d, r, sev] => match pairOf? id, ty.toInt?, unhex? t, unhex? d, unhex? r, sevOf? sev with
+    | some id, some ty, some t, some d, some r, some sev => some (some ⟨id, ty, t, d, r, sev⟩)
+    | _, _, _, _, _, _ => none
+  | _ => none
+def advStr : Option (Advisory String) → String
+  | none => "n"
+  | some a => "~".intercalate [pairStr a.id, toString a.typ, hexE a.title, hexE a.description, hexE a.recommendation, sevStr a.sev]
+
+def targetOf? (s : String) : Option (Option (Target (String × String))) :=
+  if s = "n" then some none else
+  match s.splitOn "~" with
+  | [pk, locs] => match pairOf? pk, hexList? "." locs with
+    | some pk, some locs => some (some ⟨pk, locs⟩)
+    | _, _ => none
+  | _ => none
+def targetStr : Option (Target (String × String)) → String
+  | none => "n"
+  | some t => pairStr t.pkg ++ "~" ++ hexListStr "." t.location
+
+def findingOf? (s : String) : Option RFinding :=
+  match s.splitOn ";" with
+  | [adv, tg, extra, dets] => match advOf? adv, targetOf? tg, unhex? extra, hexList? "." dets with
+    | some adv, some tg, some extra, some dets => some ⟨adv, tg, extra, dets⟩
+    | _, _, _, _ => none
+  | _ => none
+def findingStr (f : RFinding) : String :=
+  ";".intercalate [advStr f.adv, targetStr f.target, hexE f.extra, hexListStr "." f.detectors]
+
+def statusOf? (s : String) : Option ScanStatus :=
+  match s.splitOn ":" with
+  | [e, r] => match e.toInt?, unhex? r with
+    | some e, some r => some ⟨e, r⟩
+    | _, _ => none
+  | _ => none
+def statusStr (s : ScanStatus) : String := s!"{s.status}:{hexE s.reason}"
+
+def pluginOf? (s : String) : Option PluginStatus :=
+  match s.splitOn ":" with
+  | [n, v, e, r] => match unhex? n, v.toInt?, e.toInt?, unhex? r with
+    | some n, some v, some e, some r => some ⟨n, v, ⟨e, r⟩⟩
+    | _, _, _, _ => none
+  | _ => none
+def pluginStr (s : PluginStatus) : String := s!"{hexE s.name}:{s.version}:{statusStr s.status}"
+
+def listOf? {α : Type} (f : String → Option α) (s : String) : Option (List α) := if s = "_" then some [] else (s.splitOn ",").mapM f
+def listStr {α : Type} (f : α → String) (xs : List α) : String := if xs.isEmpty then "_" else ",".intercalate (xs.map f)
+
+/-- the generic content, in the grammar of the case -/
+def genStr (r : ScanResult String (String × String) String) : String :=
+  "|".intercalate [hexE r.version, r.startTime, r.endTime, statusStr r.status, listStr pluginStr r.pluginStatus,
+    listStr (fun p => pairStr (some p)) r.packages, listStr findingStr r.findings]
+
+def pStatusName : PStatusEnum → String
+  | .unspecified => "UNSPECIFIED" | .succeeded => "SUCCEEDED" | .partiallySucceeded => "PARTIALLY_SUCCEEDED" | .failed => "FAILED"
+def pTypeName : PType → String
+  | .unknown => "UNKNOWN" | .vulnerability => "VULNERABILITY" | .cisFinding => "CIS_FINDING"
+def pSevName : PSeverityEnum → String
+  | .unspecified => "UNSPECIFIED" | .minimal => "MINIMAL" | .low => "LOW" | .medium => "MEDIUM" | .high => "HIGH" | .critical => "CRITICAL"
+def pStatusStr (s : PScanStatus) : String := s!"{pStatusName s.status}:{hexE s.reason}"
+def pSevStr : Option (PSeverity String) → String
+  | none => "n"
+  | some v => s!"{pSevName v.sev}+{cvssStr v.v2}+{cvssStr v.v3}"
+def pFindingStr (f : PFinding String (String × String)) : String :=
+  ";".intercalate ["~".intercalate [pairStr (some f.adv.id), pTypeName f.adv.typ, hexE f.adv.title, hexE f.adv.description,
+      hexE f.adv.recommendation, pSevStr f.adv.sev],
+    targetStr f.target, hexE f.extra, hexListStr "." f.detectors]
+
+/-- the RECORD of the model, enum constants by their proto names -/
+def recStr (p : PScanResult String (String × String) String) : String :=
+  "|".intercalate [hexE p.version, p.startTime, p.endTime, pStatusStr p.status,
+    listStr (fun s => s!"{hexE s.name}:{s.version}:{pStatusStr s.status}") p.pluginStatus,
+    listStr (fun q => pairStr (some q)) p.packages, listStr pFindingStr p.findings,
+    boolStr (decide (p.inventoriesDeprecated = p.packages) && decide (p.findingsDeprecated = p.findings))]
+
+def resName {α : Type} : Res α → String
+  | .ok _ => "ok" | .advisoryMissing => "adv" | .advisoryIDMissing => "id" | .panic => "panic"
+
+def statusOKb (s : ScanStatus) : Bool := decide (0 ≤ s.status) && decide (s.status ≤ 3)
+def advOKb (a : Advisory String) : Bool :=
+  decide (0 ≤ a.typ) && decide (a.typ ≤ 2) && (match a.sev with | none => true | some v => decide (0 ≤ v.sev) && decide (v.sev ≤ 5))
+
+def handleResult (t : List String) : String :=
+  match t with
+  | [ver, st, en, status, plugins, pkgs, findings] =>
+    match unhex? ver, statusOf? status, listOf? pluginOf? plugins, listOf? (fun s => (pairOf? s).join) pkgs, listOf? findingOf? findings with
+    | some ver, some status, some plugins, some pkgs, some findings =>
+      let r : ScanResult String (String × String) String := ⟨ver, st, en, status, plugins, pkgs, findings⟩
+      let out := scanResultToProto (fun p => p) r
+      let rec_ := match out with | .ok p => recStr p | _ => "-"
+      -- SPEC side: the outcome (`specOutcome`: never a panic), the generic content a reader must get back (`generic`), and whether
+      -- every value is one the record can represent (`StatusOK`, `PluginOK`, `AdvisoryOK`)
+      let repr := statusOKb status &&
+        plugins.all (fun s => statusOKb s.status && decide (-2147483648 ≤ s.version) && decide (s.version < 2147483648)) &&
+        findings.all (fun f => match f.adv with | none => true | some a => advOKb a)
+      s!"sres={resName (specOutcome findings)} sgen={genStr (generic (fun p => p) r)} repr={boolStr repr} res={resName out} rec={rec_}"
+    | _, _, _, _, _ => "bad-op"
+  | _ => "bad-op"
+
+def ftStr : FileType → String
+  | ⟨gz, bin⟩ => (if bin then "bin" else "text") ++ (if gz then "+gz" else "")
+
+/-- `pfile <hex path>`: model `typeForPath` (ft=) and the specification by endings (sft=) -/
+def handlePfile (h : String) : String :=
+  match unhex? h with
+  | some p =>
+    let m := match typeForPath p.toList with
+      | .ok ft => ftStr ft
+      | .error .noExtension => "err:noext" | .error .gzNoExtension => "err:gznoext" | .error .notProto => "err:notproto"
+    let sp := match specFileType p.toList with | some ft => ftStr ft | none => "err"
+    s!"sft={sp} ft={m}"
+  | none => "bad-op"
+
+end Result
+
 def handle (line : String) : String :=
   match line.splitOn " " with
   | ["index", ps] =>
@@ -140,6 +299,16 @@ def handle (line : String) : String :=
       s!"spec={observe types names (specAll pkgs) (specOfType pkgs) (specSpecific pkgs)}"
     | none => "bad-op"
   | "proto" :: rest => handleProto rest
+  | "result" :: rest => handleResult rest
+  | ["pfile", h] => handlePfile h
+  | ["wfmt", h] => match unhex? h with
+    | some f => s!"sft={if f = "binproto" then "bin" else "text"} ft={ftStr (Scalibr.ProtoResult.formatType f)}"
+    | none => "bad-op"
+  | ["fname", _, _] => "issues=-"
+  -- the specification: no public selection function hands out an extractor the harvest (list.All) has not seen
+  | ["reach", k] => if ["names", "caps", "unknown"].contains k then "escaped=- bad=-" else "bad-op"
+  -- the specification: a write that cannot be completed is reported, and no regular file appears where none was written completely
+  | ["pwerr", v] => if ["nodir", "isdir", "utf8bin", "utf8text", "utf8gz", "devfull", "devfullgz", "devfulltext"].contains v then "werr=1 left=0" else "bad-op"
   -- the specification: printing, parsing and printing again is the identity, and the index finds the package
   | ["purlrt", _, _, _] => "ok=1 same=1 idx=1"
   | ["harvest", _, _] => "issues=-"
@@ -149,6 +318,13 @@ def handle (line : String) : String :=
   -- a declared constant no extractor emits (`c`) is reported only
   | ["accept", "e", _, _] => "acc=1 accs=1 idem=1 must=1"
   | ["accept", "c", _, _] => "acc=1 accs=1 idem=1 must=0"
+  -- negative probe: a type outside the declared table (compared after lower-casing, as the parser does) must be rejected
+  | ["accept", "n", h, _] =>
+    match unhex? h with
+    | some t =>
+      if !Scalibr.Gen.Purl.validTableFound then "acc=0 accs=0 idem=0 must=0"
+      else if Scalibr.Gen.Purl.validTypes.contains t.toLower then "acc=1 accs=1 idem=1 must=1" else "acc=0 accs=0 idem=0 must=-1"
+    | none => "bad-op"
   | _ => "bad-op"
 
 def main : IO Unit := serve handle
